@@ -226,6 +226,15 @@ pub fn scripted_suite(rng: &mut Pcg64Mcg, count: usize, max_steps: u64) -> Vec<R
             req.steps = 61;
             req.convergence = None;
         }
+        // one long run that is rejected ten thousand times in a row after a few accepted moves
+        let long = k == 21;
+        if long {
+            kind = 0;
+            req.kt_start = 0.;
+            req.steps = 12_000;
+            req.inner = 100;
+            req.convergence = None;
+        }
         let climb = k % 20 == 17;
         if climb {
             kind = 9;
@@ -247,7 +256,9 @@ pub fn scripted_suite(rng: &mut Pcg64Mcg, count: usize, max_steps: u64) -> Vec<R
         }
         let (desc, brain) = if kind < 5 {
             let (s, tail) = random_script(rng, req.steps as usize);
-            let (s, tail) = if stale {
+            let (s, tail) = if long {
+                ("BBBBBwB".to_string(), 'W')
+            } else if stale {
                 // (length 61 selects the score scale 1: 'v' is worse by 1e-10)
                 ("U".repeat(17) + &"vB".repeat(22), 'v')
             } else if cold {
